@@ -607,8 +607,9 @@ class _Run:
         for o, a in out:
             if tuple(a) != tuple(src):
                 res.violate("C17.0 answers-go-to-source", site, f"sent {o.hex()} to {a}, source was {src}", at=at)
-        # rule 3: acknowledgements are never answered (any HSTRP-headed datagram)
-        if c is not None and c["ack"] and not c["hb"] and not c["rej"]:
+        # rule 3: acknowledgements are never answered: any HSTRP-headed datagram with the ack bit set and the heartbeat bit clear,
+        # also when (through corruption) the reject bit is set as well -- a handler that answered those could still be made to ping-pong
+        if c is not None and c["ack"] and not c["hb"]:
             res.probe("ack_delivered_to_handler")
             # well-formed acks (no payload) must cause no datagram at all; a *corrupted* datagram that happens to carry the
             # ack bit together with an RRS request payload may still get the RRS-level answer to that request (that is not
